@@ -47,9 +47,9 @@ func main() {
 			return
 		}
 	}
-	if len(os.Args) < 2 || os.Args[1] != "C17" {
-		fmt.Fprintln(os.Stderr, "usage: mon-c17 C17 [flags]")
+	if len(os.Args) < 2 || (os.Args[1] != "C17" && os.Args[1] != "C16B") {
+		fmt.Fprintln(os.Stderr, "usage: mon-c17 C17|C16B [flags]")
 		os.Exit(64)
 	}
-	runBatch()
+	runBatch(os.Args[1])
 }
